@@ -19,7 +19,7 @@ def make_tree(rnd, lb, mode, ultra):
             kind = 'text'
         name = 'op%d' % i
         plain = {'text': lambda: gen.textlike(rnd, rnd.choice([100, 40000])), 'random': lambda: rnd.randbytes(rnd.choice([10, 30000])),
-                 'empty': lambda: b'', 'multiblock': lambda: gen.textlike(rnd, 150000) + rnd.randbytes(120000), 'tiny': lambda: b'x',
+                 'empty': lambda: b'', 'multiblock': lambda: gen.textlike(rnd, rnd.choice([150000, 600000])) + rnd.randbytes(120000), 'tiny': lambda: b'x',
                  'runs': lambda: gen.runs(rnd, 250000)}.get(kind, lambda: gen.textlike(rnd, 500))()
         if mode == 'compress':
             content = plain
@@ -66,6 +66,8 @@ def run(ctx):
         mode = rnd.choice(['compress', 'decompress'])
         ultra = mode == 'compress' and rnd.random() < 0.4
         flags = [f for f, p in (('-k', 0.3), ('-c', 0.25), ('-f', 0.15)) if rnd.random() < p]
+        if mode == 'decompress' and rnd.random() < 0.2:
+            flags = ['-c', '-f']            # -cdf: non-bzip2 operands are copied, the others decompressed
         jobs.append((i, mode, ultra, flags, rnd.choice([1, 2, 4]), rnd.randrange(1 << 30)))
 
     def one(j):
